@@ -471,8 +471,9 @@ func (p *sparser) primary() *SX {
 // ---------- contract declarations ----------
 
 type Clause struct {
-	Kind  string // requires ensures invariant decreases assert
-	Tags  []string
+	Kind    string // requires ensures invariant decreases assert
+	Assumed bool   // used by callers, not verified against the body (listed as an assumption)
+	Tags    []string
 	Label string
 	Expr  *SX
 	Src   string
@@ -502,6 +503,7 @@ type FuncContract struct {
 	Modifies  []*SX
 	HasMod    bool
 	ModAll    bool
+	ModInferred bool // frame = the write set inferred from the function's body (over-approximation computed by the engine)
 	Models    string // "pkgpath#Func": this contract describes that library function for arguments of the parameter's dynamic type
 	Loops     map[int]*LoopSpec
 	Flags     map[string]bool // nopanic safe pure inline trusted
@@ -586,7 +588,7 @@ var clauseKeywords = map[string]bool{
 	"guarded": true, "atomic": true, "immutable": true, "confined": true, "purefunc": true, "bounded": true,
 }
 
-var tagRe = regexp.MustCompile(`^\[((?:C[0-9]+)(?:\s*,\s*C[0-9]+)*)\]\s*`)
+var tagRe = regexp.MustCompile(`^\[((?:C[0-9]+|assumed)(?:\s*,\s*(?:C[0-9]+|assumed))*)\]\s*`)
 var labelRe = regexp.MustCompile(`^([A-Za-z_][A-Za-z0-9_]*)\s*:(?:[^:]|$)`)
 
 type rawItem struct {
@@ -710,7 +712,15 @@ func (cs *ContractSet) ParseFile(path, pkgdir string) error {
 		if err != nil {
 			return nil, fmt.Errorf("%s:%d: %v", path, line, err)
 		}
-		return &Clause{Kind: kind, Tags: tags, Label: label, Expr: x, Src: rest, File: path, Line: line}, nil
+		cl := &Clause{Kind: kind, Label: label, Expr: x, Src: rest, File: path, Line: line}
+		for _, t := range tags {
+			if t == "assumed" {
+				cl.Assumed = true
+			} else {
+				cl.Tags = append(cl.Tags, t)
+			}
+		}
+		return cl, nil
 	}
 	for _, it := range items {
 		kw := it.text
@@ -803,6 +813,8 @@ func (cs *ContractSet) ParseFile(path, pkgdir string) error {
 			cur.HasMod = true
 			if rest == "*" || rest == "everything" {
 				cur.ModAll = true
+			} else if rest == "inferred" {
+				cur.ModInferred = true
 			} else if rest != "nothing" {
 				for _, part := range splitTopLevel(rest, ',') {
 					x, err := ParseSpecExpr(strings.TrimSpace(part))
